@@ -347,6 +347,11 @@ func genC09History(t *simrt.Tape) *History {
 		a.Events = append(a.Events, GenAction(t, k, a.Ses, pid, a.UID))
 	}
 	a.Events = append(a.Events, k.UserMsg("CRED_DISP", a.Ses, pid, a.UID, true, 0))
+	if t.Choose(4, "trailingA") == 3 {
+		// one more record of the session after its credential disposal (USER_LOGOUT / USER_END of
+		// the pam stack), still before the PID is reused
+		a.Events = append(a.Events, k.UserMsg([]string{"USER_LOGOUT", "USER_END"}[t.Choose(2, "trailingA.type")], a.Ses, pid, a.UID, true, 0))
+	}
 	splitA := len(a.Events) // default: all records first, login last
 	if t.Choose(2, "splitA.mode") == 1 {
 		splitA = t.Choose(len(a.Events)+1, "splitA")
